@@ -128,15 +128,27 @@ DAsVector(h) == IF Covers(h) \/ Variant = "orig" THEN [p \in 1..(h.rm * h.cm) |-
 (* Reset: storage keys that are zeroed *)
 DReset(h) == IF Covers(h) \/ Variant = "orig" THEN 0..(h.rm * h.cm - 1)
              ELSE {DIndex(h, i, j) : i \in 0..(h.rows - 1), j \in 0..(h.cols - 1)}
-(* Tip on a matrix that is its whole storage: cycle-leader permutation of the storage,
-   the element at key x moves to x*R mod (mn-1) with R the number of STORAGE rows *)
+(* Tip on a matrix that is its whole storage: the cycle-leader loop of the code,
+     for cycle := 1; cycle < mn; cycle++ { if visited[cycle] {continue}; k = cycle
+       for { if k != mn-1 {k = R*k % (mn-1)}; visited[k] = true; swap(values[k], values[cycle]); if k == cycle {break} } }
+   R = number of rows of the STORAGE layout.  st[k] = cell found under storage key k. *)
+RECURSIVE TipInner(_, _, _, _, _, _)
+TipInner(st, vis, k, cyc, R, mn) ==
+  LET k2 == IF k # mn - 1 THEN (R * k) % (mn - 1) ELSE k
+      st2 == [st EXCEPT ![k2] = st[cyc], ![cyc] = st[k2]]
+  IN IF k2 = cyc THEN <<st2, vis \cup {k2}>> ELSE TipInner(st2, vis \cup {k2}, k2, cyc, R, mn)
+RECURSIVE TipOuter(_, _, _, _, _)
+TipOuter(st, vis, cyc, R, mn) ==
+  IF cyc >= mn THEN st
+  ELSE IF cyc \in vis THEN TipOuter(st, vis, cyc + 1, R, mn)
+  ELSE LET r == TipInner(st, vis, cyc, cyc, R, mn) IN TipOuter(r[1], r[2], cyc + 1, R, mn)
+(* net effect the loop is meant to have: the element under key x moves to x*R mod (mn-1) *)
 TipPerm(x, R, mn) == IF x = mn - 1 THEN x ELSE (x * R) % (mn - 1)
 DTip(h) ==
   LET mn == h.rm * h.cm
       R  == IF h.tr /\ Variant # "orig" THEN h.cols ELSE h.rows
-      \* st[k] = number of the cell found at storage key k afterwards
-      st == [k \in 0..(mn - 1) |-> CHOOSE x \in 0..(mn - 1) : TipPerm(x, R, mn) = k]
-  IN [h |-> Hdr(h.cols, h.rows, h.co, h.cm, h.ro, h.rm, h.tr), st |-> st]
+  IN [h |-> Hdr(h.cols, h.rows, h.co, h.cm, h.ro, h.rm, h.tr),
+      st |-> TipOuter([k \in 0..(mn - 1) |-> k], {}, 1, R, mn)]
 
 (* --------------------------------------------------------- sparse mechanism *)
 (* header without transposed flag; st[k] = cell whose scalar is stored under key k *)
@@ -166,7 +178,7 @@ STip(s) ==
   LET h == s.h
       mn == h.rm * h.cm
   IN [h |-> Hdr(h.cols, h.rows, h.co, h.cm, h.ro, h.rm, FALSE),
-      st |-> [k \in 0..(mn - 1) |-> s.st[CHOOSE x \in 0..(mn - 1) : TipPerm(x, h.rows, mn) = k]]]
+      st |-> TipOuter(s.st, {}, 1, h.rows, mn)]
 
 (* ------------------------------------------------------------------ machine *)
 Init == /\ pr \in 1..MaxR /\ pc \in 1..MaxC
@@ -219,6 +231,11 @@ VecOK == LET v == DAsVector(hd) IN
            /\ Len(v) = VR * VC
            /\ {v[p] : p \in 1..Len(v)} = CellSet(w, VR, VC)
 ResetOK == DReset(hd) = CellSet(w, VR, VC)
+TipLoopOK == Covers(hd) =>
+  LET mn == NCells
+      R  == IF hd.tr THEN hd.cols ELSE hd.rows
+      st == TipOuter([k \in 0..(mn - 1) |-> k], {}, 1, R, mn)
+  IN \A x \in 0..(mn - 1) : st[TipPerm(x, R, mn)] = x
 TW == Append(w, TOp)
 TipOK == Covers(hd) =>
            /\ LET r == DTip(hd) IN
